@@ -43,7 +43,7 @@ func (P) Describe() harness.Description {
 			"Every Entry result (pass / circuit-breaking block with the blocking rule) must equal the reference machine's, and after every op the listener log must equal the reference transition list (same transitions, same previous state, each once). " +
 			"non-trivial = a breaker went Closed->Open->HalfOpen and then closed or re-opened; distinct = hash(config, ops)",
 		Assumptions: []string{
-			"any completion while half-open counts as a probe outcome (the machine is driven only by completions and time), stragglers included",
+			"a completion, while half-open, of a request admitted before that passage to half-open may count as the probe's outcome (the implementation's choice: 'driven only by completed requests and time') or be ignored ('successful probes close it'): the reference follows the listeners there, everything else is fixed",
 			"ratio thresholds: a decision within 1e-7 of the threshold (not equal) is ambiguous; the run stops there and is counted boundary_ambiguous",
 			"error-count thresholds are generated integral",
 			"a probe request blocked by a later breaker returns its breaker to Open without re-arming the deadline",
@@ -197,6 +197,8 @@ type ment struct {
 	res   int
 	start uint64
 	done  bool
+	// probeOf: per breaker, the passage to half-open this request was admitted in (absent: admitted while closed)
+	probeOf map[*mb]int
 }
 
 var strat = []cb.Strategy{cb.SlowRequestRatio, cb.ErrorRatio, cb.ErrorCount}
@@ -314,7 +316,16 @@ func (P) Exec(c *harness.Case) *harness.Outcome {
 					o.Fail("C03.triggered-rule", step, "blocked by %v, reference says breaker %s", be.TriggeredRule(), blockBy.ID)
 					return o
 				}
-			} else if be != nil {
+			} else if be == nil {
+				// which passages to half-open this request is a probe of
+				m.probeOf = map[*mb]int{}
+				for _, b := range brs[op.R] {
+					if b.m.State == model.HalfOpen {
+						m.probeOf[b] = b.m.Passage()
+					}
+				}
+			}
+			if blockBy == nil && be != nil {
 				b0 := brs[op.R][0]
 				o.Fail("C03.spurious-block", step, "t=%d request on res-%d blocked (%s); every reference breaker admits it (first breaker %s is %s, deadline %d)", now, op.R, be.BlockType(), b0.ID, model.StateName[b0.m.State], b0.m.Deadline)
 				return o
@@ -326,12 +337,46 @@ func (P) Exec(c *harness.Case) *harness.Outcome {
 			m := ents[op.E]
 			m.done = true
 			rt := now - m.start
+			// the real completion first: where the property leaves a choice (below) the listener log decides
+			harness.Call(o, "C03.panic", step, func() {
+				if op.F {
+					sentinel.TraceError(m.e, errors.New("biz"))
+				}
+				m.e.Exit()
+			})
+			if o.Failed() {
+				return o
+			}
 			for _, b := range brs[m.res] {
 				prev := b.m.State
+				// A request that was admitted before the current passage to half-open is not that passage's probe.
+				// "Driven only by completed requests" lets its completion count as the probe's outcome (what the
+				// implementation does); "successful PROBES close it" lets it be ignored. Both are accepted: the
+				// reference follows whichever the listeners report.
+				straggler := prev == model.HalfOpen && m.probeOf[b] != b.m.Passage()
+				var keep *model.Breaker
+				if straggler {
+					keep = b.m.Clone()
+					o.Probe("straggler_completes_while_half_open")
+				}
 				b.m.Complete(now, rt, op.F)
 				if b.m.Band {
 					o.Ambiguous++
 					return o
+				}
+				if straggler && len(b.m.Events) > b.ev {
+					fits := len(lis.log) >= len(want)+len(b.m.Events)-b.ev
+					for i := b.ev; fits && i < len(b.m.Events); i++ {
+						t := b.m.Events[i]
+						if lis.log[len(want)+i-b.ev] != (lev{b.ID, t.From, t.To}) {
+							fits = false
+						}
+					}
+					if !fits {
+						b.m = keep
+						b.m.CompleteIgnored(now, rt, op.F)
+						o.Probe("straggler_ignored_by_the_implementation")
+					}
 				}
 				for ; b.ev < len(b.m.Events); b.ev++ {
 					t := b.m.Events[b.ev]
@@ -344,12 +389,6 @@ func (P) Exec(c *harness.Case) *harness.Outcome {
 					o.Probe("straggler_or_probe_completion")
 				}
 			}
-			harness.Call(o, "C03.panic", step, func() {
-				if op.F {
-					sentinel.TraceError(m.e, errors.New("biz"))
-				}
-				m.e.Exit()
-			})
 		}
 		if o.Failed() {
 			return o
